@@ -160,7 +160,7 @@ def expect_mc_violation(name, cfg, workers=4, timeout=600):
     return ("is violated" in out) or ("Invariant" in out and "violated" in out)
 
 
-MISMATCH_RE = re.compile(r'<<"MISMATCH", (\d+), "([a-z_]+)"')
+MISMATCH_RE = re.compile(r'<<"MISMATCH", (\d+), "([a-z_]+)", "([^"]*)">>')
 
 
 def validate_trace(path, timeout=1800, module="Trace", cfg="Trace"):
@@ -169,7 +169,7 @@ def validate_trace(path, timeout=1800, module="Trace", cfg="Trace"):
     rc, out = _tlc(os.path.join(SPEC, cfg + ".cfg"), os.path.join(SPEC, module + ".tla"), 1,
                    env_extra={"TRACE": os.path.abspath(path)}, timeout=timeout,
                    java_opts="-Xss1g -Dtlc2.tool.queue.IStateQueue=StateDeque", heap="4g")
-    mism = [(int(a), b) for a, b in MISMATCH_RE.findall(out)]
+    mism = [(int(a), b, c) for a, b, c in MISMATCH_RE.findall(out)]
     cons = re.search(r'"TRACE-CONSUMED", (\d+)', out)
     m = STATS_RE.search(out)
     res = {"path": path, "consumed": bool(cons), "events": int(cons.group(1)) if cons else 0,
